@@ -4,16 +4,20 @@ import importlib, os, sys, glob
 V = os.path.dirname(os.path.dirname(os.path.abspath(__file__)))
 sys.path.insert(0, V)
 from vlib import common as C
-for f in sorted(glob.glob(V + "/props/c*.py")):
-    mod = importlib.import_module("props." + os.path.basename(f)[:-3])
+import json
+ENABLED = json.load(open(V + "/tools/enabled.json"))
+targets = []
+for pid in ENABLED:
+    mod = importlib.import_module("props." + pid.lower())
     g = getattr(mod, "generate", None)
     if g:
         print("generate:", mod.__name__); g()
+    targets += list(getattr(mod, "TARGETS", []))
 bad = C.grep_gate()
 if bad:
     print("forbidden constructs:", bad); sys.exit(1)
 with C.CoqLock():
     C.coq_makefile()
-    rc, out, err = C.run(["make", "-k", "-j%d" % C.NCPU], cwd=C.COQ, timeout=7200)
+    rc, out, err = C.run(["make", "-k", "-j%d" % C.NCPU] + sorted(set(targets)), cwd=C.COQ, timeout=7200)
 sys.stdout.write(out[-3000:]); sys.stderr.write(err[-6000:])
 sys.exit(0 if rc == 0 else 1)
